@@ -26,6 +26,29 @@ CHECKS["C06"] = dict(level="exploration", ref="6/C06",
    note="The reference is the build under test under the canonical schedule: an error that is the same under every schedule is out of scope (the property is an invariance). Dither off.",
    technique=TECH + "; differential against the canonical schedule of the same build")
 
+DEC_NOTE = ("Trusts the harness oracles; the acoustic models, dictionaries and recordings are the repository's own. Utterances are <= 3 s; compared utterances <= 290 frames "
+            "with the CMN state set from text first (the property's own restriction). Sampling, not proof.")
+CHECKS["C01"] = dict(level="exploration", ref="6/C01",
+   text="Seeded plans over a forked template decoder: generated FSG/JSGF/alignment grammars with an independent reference automaton, matching and mismatching audio from the "
+        "simulated channel (cut mid-word, reversed, noise, silence, clipped, dropouts), beam/filler/alternate knobs, chunked feeding with partial queries; every partial result must be "
+        "a path prefix and every final result a sentence of the reference automaton (or no hypothesis at all).",
+   note=DEC_NOTE, technique=TECH + "; reference NFA built from the generator's own structure")
+CHECKS["C03"] = dict(level="exploration", ref="6/C03",
+   text="Same world as C01 plus utterances of 0..few frames and circular buffering: on every partial and final record the tiling rules, null-marker rule, hypothesis = base forms of "
+        "segment words, exact integer identity sum(ascr+lscr) = path score, and frames searched (process returns + end_utt) = independent frame-count formula.",
+   note=DEC_NOTE, technique=TECH + "; invariant monitors over every record of a scheduled execution")
+CHECKS["C07"] = dict(level="exploration", ref="6/C07",
+   text="One probe utterance per run executed under a seeded schedule (cuts down to single samples, first chunk shorter than a window, int16/float32, buffered no_search chunks, "
+        "grow/circular feature buffer, interleaved partial queries incl. alignment) and compared field by field (hypothesis, score, every segment field, frame count, three "
+        "alignment levels) with the canonical one-call execution computed in a pristine sibling process of the same build.",
+   note=DEC_NOTE + " The reference is the build under test: an error common to all schedules is out of scope (invariance property).",
+   technique=TECH + "; differential against the canonical schedule in a pristine forked sibling")
+CHECKS["C08"] = dict(level="exploration", ref="6/C08",
+   text="1-3 decoders with 0-4 earlier utterances each (any grammar, audio, streaming or batch, ended with or without hypothesis, CMN set or carried), grammar switches, all "
+        "interleaved call by call by the seeded scheduler; then a probe utterance decoded twice whose full record must equal that of a pristine sibling process given only the "
+        "configuration, the last accepted grammar, the CMN text and the audio (batch class: no CMN reset).",
+   note=DEC_NOTE, technique=TECH + "; differential against a pristine forked sibling after seeded histories on several live decoders")
+
 NA = {
  "C02": "pure function of grammar, dictionary, model and frame scores: no schedule, fault, history or crash point; needs an independent max-plus reference (differential testing), another technique family",
  "C05": "pure function of one JSGF text (a compiler-correctness property): nothing to schedule or fault; language enumeration against a JSGF interpreter is the right tool",
